@@ -68,6 +68,18 @@ CHECKS = {
         "known findings are matched exactly (dialect, text, observed answer) from pins/C01.json.",
         "DESIGN.md section 5 C01",
     ),
+    "C02": (
+        "vmc/c02.py (E1 + E6 generator with column-level choice points + refsem.columns)",
+        "exploration",
+        "deviation-bounded exhaustive enumeration of the core-SQL grammar at column level; real LineageRunner vs. executable reference dataflow semantics",
+        "Every statement within 3 deviations of the simplest one over statement kind x query form x FROM shape x relation kind x 1-3 select "
+        "items x 14 item kinds x reference target x qualified / unqualified / schema-qualified reference x alias reuse (nesting <= 2) is analysed; the set of "
+        "end-to-end (source column, target column) pairs - unresolved sources with their candidate lists - must equal the reference exactly. "
+        "Dialect fan-out: the D<=1 ball (quick) / D<=2 ball (thorough) and every dialect-specific statement form under 5 / all dialects.",
+        "Trusted: refsem.columns (reference semantics from the property text, self-tested against hand-written expectations); sqlfluff as domain "
+        "filter; known findings matched exactly from pins/C02.json.",
+        "DESIGN.md section 5 C02",
+    ),
 }
 
 NOT_YET = "check not built yet in this revision (planned in DESIGN.md section 5/11); not claimed"
